@@ -32,6 +32,26 @@ class TypingStub(Sym):
 TYPING = TypingStub()
 
 
+class UnknownModule(StubModule):
+    """external module without a model: every member is an UnknownMember"""
+
+    def __init__(self, name):
+        StubModule.__init__(self, name, _AnyMember(name))
+
+
+class _AnyMember(dict):
+    def __init__(self, modname):
+        dict.__init__(self)
+        self.modname = modname
+
+    def __contains__(self, k):
+        return True
+
+    def __getitem__(self, k):
+        name = self.modname + "." + k
+        return Builtin(name, Loader._unsupported("call of %s (external module without a model)" % name))
+
+
 def _stub_call(E, a, k):
     return TYPING
 
@@ -177,7 +197,14 @@ class Loader:
                 raise PyExc("ImportError", "No module named " + full)
             if top == "rtlsdr":
                 raise PyExc("ImportError", "No module named rtlsdr")
-            raise Unsupported("import of external module " + full)
+            # unknown external module: importing it is fine, *using* a member is outside the
+            # modelled subset (the obligations on the paths that do so become undecided and are
+            # handed to the bounded stand-in; everything else is unaffected)
+            m = self.stubs.get(full)
+            if m is None:
+                m = UnknownModule(full)
+                self.stubs[full] = m
+            return m
         # parents first
         if "." in full:
             self.load(full.rsplit(".", 1)[0])
